@@ -143,9 +143,9 @@ Definition query_char c := printable c && negb (Ascii.eqb c "#").
 Definition wf_query (q : option bytes) : bool :=
   match q with None => true | Some x => forallb query_char x && negb (Ascii.eqb (last x "x") " ") end.
 
-(* fragment: printable ASCII except '#', with complete escapes (net/url rejects a URL whose
-   fragment has a bad escape) *)
-Definition frag_plain c := query_char c && negb (Ascii.eqb c "%").
+(* fragment: printable ASCII - further '#' included: the fragment starts at the FIRST '#' -
+   with complete escapes (net/url rejects a URL whose fragment has a bad escape) *)
+Definition frag_plain c := printable c && negb (Ascii.eqb c "%").
 Fixpoint wf_frag_chars (s : bytes) : bool :=
   match s with
   | [] => true
